@@ -5,12 +5,12 @@ Bounded exhaustive exploration (E1, full Cartesian products, no sampling) of the
 kawin.solver.Iterators / DESolver / GenericModel.solve:
 
   stage `order`        system x initial value x start time x duration x iterator x call path x iterator form:
-                       a ladder h0*2^-k (k = 0..kmax) of fixed steps, observed order from successive error ratios
-                       against the closed-form solution.  The ladder is *derived per case* with an independent
-                       reference integrator written here (plain loops): h0 is the largest dyadic step for which
-                       the reference shows its textbook order inside a tight band on the three finest pairs with
-                       every error >= 100 x the 1e-13 round-off floor.  The code under test is never used to
-                       choose the ladder.
+                       a ladder of fixed dyadic steps T/2^m, observed order from successive error ratios against the
+                       closed-form solution.  The ladder is *derived per case* with an independent reference
+                       integrator written here (plain loops): the window of up to kmax+1 consecutive steps ending at
+                       the finest step whose reference error is still >= 100 x the 1e-13 round-off floor, accepted
+                       only if the reference shows its textbook order inside a tight band on the three finest pairs.
+                       The code under test is never used to choose the ladder.
   stage `stage-times`  (t, h) lattice x iterator x call path: the exact times at which the derivative callback
                        is invoked during one step.
   stage `no-mutation`  (t, h) lattice x iterator x call path x how the derivative is returned (fresh array, the
@@ -465,7 +465,7 @@ def run(ctx):
                             for form in forms:
                                 cases.append({'system': name, 'x0': x0, 't0': t0, 'T': T, 'it': it, 'path': path,
                                               'form': form, 'kmax': kmax})
-    ctx.bounds = {'systems': ORDER_SYSTEMS, 'ladder': 'h0*2^-k, k=0..%d, h0 derived per case' % kmax,
+    ctx.bounds = {'systems': ORDER_SYSTEMS, 'ladder': 'T/2^m, window of <= %d consecutive steps derived per case (see derive_ladder)' % (kmax + 1),
                   'initial_values_per_system': nlev, 'start_times_per_system': nlev,
                   'durations_per_system': 1 if quick else 2, 'iterators': ['euler', 'rk4'], 'paths': paths, 'forms': forms,
                   'order_bands': BAND, 'error_floor': FLOOR}
